@@ -2,7 +2,6 @@ package mon
 
 import (
 	"fmt"
-	"io"
 	"log"
 	"os"
 	"reflect"
@@ -268,7 +267,7 @@ func c11Sequential(c *core.Ctx) {
 			stackage.SetDefaultStackLogLevel(stackage.NoLogLevels)
 			stackage.SetDefaultConditionLogLevel(stackage.NoLogLevels)
 		} else {
-			w := log.New(io.Discard, "later", 0)
+			w := log.New(NullWriter{}, "later", 0)
 			stackage.SetDefaultStackLogger(w)
 			stackage.SetDefaultConditionLogger(w)
 			stackage.SetDefaultStackLogLevel(stackage.AllLogLevels)
@@ -386,7 +385,7 @@ func c11Concurrent(c *core.Ctx) {
 	r := c.Rng
 	deep := 0
 	if c.Idx%3 != 1 {
-		deep = r.Range(8, 26)
+		deep = r.Range(14, 40)
 	}
 	t := c11Build(r, 16, deep)
 	s0, _ := Take(t.root)
@@ -474,8 +473,13 @@ func c11Concurrent(c *core.Ctx) {
 	if deep > 0 && len(bad) == 0 {
 		// a storm of the recursive queries on the root: every goroutine is inside the same deep recursion at once
 		c.Count("trees.concurrent.deep-chain")
-		wantStr, wantValid := t.root.String(), t.root.Valid() == nil
-		wantU, _ := t.root.Unmarshal()
+		// (a structure of its own: the random root may carry a presentation or validity policy that cuts the rendering short)
+		stormRoot := stackage.And().Push("storm", c11DeepChain(r, deep).Build(), t.root)
+		if r.Bool() {
+			stormRoot.SetReadOnly(true)
+		}
+		wantStr, wantValid := stormRoot.String(), stormRoot.Valid() == nil
+		wantU, _ := stormRoot.Unmarshal()
 		wantShape := fmt.Sprintf("%v", shapeOf(wantU))
 		var swg sync.WaitGroup
 		go2 := make(chan struct{})
@@ -484,11 +488,17 @@ func c11Concurrent(c *core.Ctx) {
 			go func() {
 				defer swg.Done()
 				<-go2
-				for n := 0; n < 25; n++ {
-					var gs string
-					var gv bool
-					var gu []any
-					if p, msg, _ := Guard(func() { gs, gv = t.root.String(), t.root.Valid() == nil; gu, _ = t.root.Unmarshal() }); p {
+				for n := 0; n < 80; n++ {
+					gs, gv, gu := wantStr, wantValid, wantU
+					if p, msg, _ := Guard(func() {
+						// mostly the one query, back to back (what matters is how many goroutines are deep inside the
+						// same recursion at the same instant); the other two every tenth round
+						gs = stormRoot.String()
+						if n%10 == 9 {
+							gv = stormRoot.Valid() == nil
+							gu, _ = stormRoot.Unmarshal()
+						}
+					}); p {
 						mu.Lock()
 						bad = append(bad, "deep recursive query panicked: "+msg)
 						mu.Unlock()
@@ -505,7 +515,10 @@ func c11Concurrent(c *core.Ctx) {
 		}
 		close(go2)
 		swg.Wait()
-		c.Add("queries.concurrent", int64(workers*75))
+		if c.Verbose {
+			fmt.Printf("deep chain of %d levels, %d goroutines, isolated String() has %d bytes, mismatches reported: %d\n", deep, workers, len(wantStr), len(bad))
+		}
+		c.Add("queries.concurrent", int64(workers*96))
 	}
 	if cold {
 		c.Count("trees.concurrent.cold-start")
